@@ -26,6 +26,7 @@ import re
 import shutil
 import subprocess
 import tempfile
+from concurrent.futures import ThreadPoolExecutor
 
 import vlib
 
@@ -616,9 +617,8 @@ def run(rep):
             sp = gen_spec(rep.rng, can_chmod)
             for jl in perms_of(sp, rep.rng, rep.tier):
                 work.append((sp, jl))
-        results = []
-        for i, (sp, jl) in enumerate(work):
-            results.append(run_case(rep, base, sp, jl, i))
+        with ThreadPoolExecutor(max_workers=4) as ex:
+            results = list(ex.map(lambda a: run_case(rep, base, a[1][0], a[1][1], a[0]), enumerate(work)))
         # virtual roots (-e / stdin): no importer directory
         vres = []
         seen = set()
